@@ -19,8 +19,11 @@ SPEC = dict(
     harness=['h_tree.c'],
     configs=lambda tier: [dict(name='packed'), dict(name='unpacked', cflags=['-DA_SIZE_POINTER=1']), dict(name='clang', libcc='clang'), dict(name='o2', libflavour='san-o2', libdrop=['-fno-strict-aliasing']),
                           dict(name='unpacked-uchar', cflags=['-DA_SIZE_POINTER=1', '-funsigned-char', '-funsigned-bitfields'])] +
-                         [dict(name='minalign', cflags=['-fno-sanitize=alignment'], hflags=['-DVF_MINALIGN=%d' % n]) for n in _minalign('avl.h')],
-    parallel_configs=6,
+                         [dict(name='minalign', cflags=['-fno-sanitize=alignment'], hflags=['-DVF_MINALIGN=%d' % n]) for n in _minalign('avl.h')] +
+                         # trees taller than 32 levels (h_tree_deep.c): UBSan-only optimised build, two workers of their own (not a share of the 12)
+                         [dict(name='deep', harness=['h_tree_deep.c'], flavour='ubsan', nworkers=2),
+                          dict(name='deep-unpacked', harness=['h_tree_deep.c'], cflags=['-DA_SIZE_POINTER=1'], flavour='ubsan', nworkers=2)],
+    parallel_configs=8,
     workers={'quick': 12, 'thorough': 16},
     level='exploration',
     rule='(1) every AVL shape reachable through the real library with <= N nodes (N=15 quick, 20 thorough) is enumerated by a fixpoint over '
@@ -28,19 +31,29 @@ SPEC = dict(
          'lookup is executed through the library and followed by the invariant walker (BST order, |hR-hL|<=1, stored factor == hR-hL, parent '
          'links, node identity, element set == model) - because the code only compares keys this is every (state, operation) pair of every '
          'history whose tree stays within N nodes. (2) seeded random/adversarial histories (9 patterns, key spaces 8..4096, a_avl_insert and the '
-         'manual link + a_avl_insert_adjust path) with the walker after every call. Both node layouts are built and driven: the packed parent/meta word (default on this platform) and the separate-member layout (-DA_SIZE_POINTER=1; N-2 in quick). distinct_nontrivial = number of distinct canonical '
-         '(structure + stored factors) trees on which the walker ran after an operation.',
+         'manual link + a_avl_insert_adjust path) with the walker after every call. Both node layouts are built and driven: the packed parent/meta word (default on this platform) and the separate-member layout (-DA_SIZE_POINTER=1; N-2 in quick). '
+         '(3) configurations deep / deep-unpacked (h_tree_deep.c): trees TALLER THAN 32 LEVELS - the sparsest AVL shapes FIB(L) (root, FIB(L-1), FIB(L-2): Fib(L+2)-1 nodes) and SPINE(L-1) (a spine of balanced nodes each carrying a FIB tree), '
+         'L = 34 in quick (14 930 351 / 14 930 350 nodes), 33, 35 and 36 in thorough (9 227 464 .. 39 088 168 nodes), deep side left/right/alternating/random per level, inserted breadth first through a_avl_insert (every prefix is a valid AVL tree) into one malloc block; '
+         'a full O(n) walker judges the built tree, then 400 (quick) / 1500 (thorough) logged operations per tree - remove and re-insert the deepest leaf (all L-1 ancestors shrink, then grow), inserts below the deepest leaves and the end of the balanced spine, removal of the lowest leaves (rotation on almost every level), of the root, of the minimum/maximum and of random elements, duplicate inserts, lookups - '
+         'are each judged at once by a region check along the search paths of the touched keys (order, factor == hR-hL, |hR-hL| <= 1, parent links, root, element count from cached subtree sizes; untouched subtrees enter with the heights cached by the last walk), and by the full walker after the first operations, every 200/250 operations and at the end. '
+         'distinct_nontrivial = number of distinct canonical (structure + stored factors) trees on which the walker ran after an operation (deep configurations: distinct touched regions - node identities, links and factors along the checked paths).',
     exhaustive={'quick': 'all (shape, operation) pairs for reachable AVL shapes with <= 15 nodes',
                 'thorough': 'all (shape, operation) pairs for reachable AVL shapes with <= 20 nodes'},
     require=['walker-runs', 'bfs-insert-transitions', 'bfs-remove-transitions', 'dup-insert-returns-resident', 'dup-insert-of-resident-object',
-             'insert-returns-null-for-new-key', 'search-agrees-with-model'],
+             'insert-returns-null-for-new-key', 'search-agrees-with-model',
+             # configurations deep*: a tree above 32 levels was built and judged; inserts / removals 33 or more levels down whose retrace ran all the way to the root were judged
+             'deep-build-judged', 'deep-tree-height-above-32', 'deep-full-walks', 'deep-insert-judged', 'deep-remove-judged', 'deep-dup-insert-judged', 'deep-search-judged',
+             'deep-insert-33-levels-down-changes-height-of-root', 'deep-remove-33-levels-down-changes-height-of-root'],
     cov_files=['avl.c'], cov_funcs=r'^a_avl_(?!head|tail|next|prev|pre_|post_|tear)', cov_cases=120,
     assumptions=_COMMON + ['removed nodes are free()d immediately, so a stale link is reported by ASan as use-after-free',
-                           'shapes above N nodes are sampled by the random histories only'],
+                           'shapes above N nodes are sampled by the random histories (up to 4096 nodes) and by the sparse 33-36 level trees of the configurations deep* only'],
     level_text='Bounded-exhaustive over tree shapes (every reachable AVL shape up to N nodes x every possible single operation, executed through the '
                'real code and judged by a structural walker + sorted-array model after every call) plus long random/adversarial histories up to 4096 '
                'nodes. Exhaustive-in-the-small is the right level: rebalancing cases depend only on local shape, and all of them occur below ~12 nodes.',
     level_note='trusted: the harness walker/model; shapes are re-materialised by cloning library-produced structures through the public node fields; '
-               'the unpacked node layout is built with -DA_SIZE_POINTER=1 on this 64-bit host (pointers stay 8 bytes wide)',
-    technique='bounded-exhaustive shape enumeration + random histories in both node layouts, invariant walker and reference model after every call, comparators of arbitrary magnitude, ASan/UBSan',
+               'the unpacked node layout is built with -DA_SIZE_POINTER=1 on this 64-bit host (pointers stay 8 bytes wide); '
+               'the configurations deep* are built -O2 with UBSan only (ASan does not fit 15-40 million nodes): a removed node is overwritten with 0xEE instead of freed and a stale link is found by the walkers (node not in the model / link outside the block), '
+               'between two full walks the subtrees hanging off the checked paths are trusted to be unchanged; heights above 36 levels (> 10^8 nodes) are not reached',
+    technique='bounded-exhaustive shape enumeration + random histories in both node layouts, invariant walker and reference model after every call, comparators of arbitrary magnitude, ASan/UBSan; '
+              'sparsest-shape (Fibonacci) trees of 33-36 levels built through the library with incremental + full invariant walks (UBSan)',
 )
